@@ -25,7 +25,7 @@ func encodeCase(e []byte, l int) map[string]interface{} {
 
 // C01: NewMnemonicByEntropy == reference encoder, string equality.
 func runC01(c *Ctx) {
-	c.res.Rule = "entropy scopes E_win/E_ham/E_run/E_per/E_byte/E_blk/E_cs (DESIGN 2.4) x 10 languages; one evaluation = one NewMnemonicByEntropy call compared (string equality) with the bit-array reference encoder over golden lists; distinct_nontrivial = number of distinct entropies (all are valid-size inputs that exercise the full encoder)"
+	c.res.Rule = "entropy scopes E_win/E_ham/E_run/E_per/E_byte/E_blk/E_cs (DESIGN 2.4) x 10 languages; one evaluation = one NewMnemonicByEntropy call compared (string equality) with the bit-array reference encoder over golden lists; plus encodings issued right after validations of five kinds in the same goroutine; distinct_nontrivial = number of distinct entropies (all are valid-size inputs that exercise the full encoder)"
 	c.Assume("golden lists are canonical (digests pinned, english digest independently known)", "Go stdlib crypto/sha256")
 	c.entScopes(func(e []byte) {
 		keep := append([]byte(nil), e...)
@@ -45,6 +45,36 @@ func runC01(c *Ctx) {
 			c.Sample(3, map[string]interface{}{"entropy": hx(e), "lang": "Japanese", "mnemonic": c.M.Encode(e, ref.Japanese)})
 		}
 	})
+	// encoding right after validations of several kinds, sequentially in one goroutine: whatever a
+	// validation leaves behind (pooled hash states, scratch integers) must not colour the next encoding
+	var nAfter int64
+	for l := 0; l < ref.NLang; l++ {
+		for _, L := range enum.EntLens {
+			z := make([]byte, L)
+			z[L-1] = byte(l + 1)
+			primers := []string{
+				strings.Join(c.M.Words(z, l), " "),                                  // valid, leading zero bytes
+				strings.Join(c.M.Words(bytes.Repeat([]byte{0xFF}, L), l), " "),      // valid, all ones
+				"zz " + strings.Join(c.M.Words(z, l)[1:], " "),                      // unknown first word
+				strings.Join(c.M.Words(z, l)[:L/4*3-1], " ") + " " + c.M.List[l][7], // most likely a bad checksum
+				strings.Join(c.M.Words(z, l)[:5], " "),                              // wrong count
+			}
+			for _, e := range enum.Rep(L) {
+				for _, pr := range primers {
+					_ = bip39.CheckMnemonic(pr, Langs[l])
+					got, err := bip39.NewMnemonicByEntropy(e, Langs[l])
+					c.Eval(1)
+					nAfter++
+					if want := c.M.Encode(e, l); err != nil || got != want {
+						c.Violate(fmt.Sprintf("encodeafter:%s:%s:%d", hs(pr), hx(e), l),
+							fmt.Sprintf("right after CheckMnemonic(%q): NewMnemonicByEntropy(%s,%s) = (%q, %v), reference %q", pr, hx(e), ref.LangNames[l], got, err, want),
+							map[string]interface{}{"kind": "encodeafter", "first": hs(pr), "entropy": hx(e), "lang": l})
+					}
+				}
+			}
+		}
+	}
+	c.AddScope("encodings right after 5 kinds of validation (sequential), 8 entropies x 5 sizes x 10 languages", nAfter, true, "")
 	c.Sample(5, map[string]interface{}{"entropy": strings.Repeat("00", 16), "lang": "English", "mnemonic": c.M.Encode(make([]byte, 16), 2)})
 }
 
